@@ -38,7 +38,12 @@ CsvContexts == { <<>>, <<97, 44>>, <<34, 97>>, <<34, 97, 34>>, <<97, 10>> }
 Seqs(B, n) == UNION { [1..k -> B] : k \in 0..n }
 
 (* binary layouts: fields and corruption classes *)
-Classes == {"zero", "one", "max", "beyond_file", "huge", "minus_one", "wrong_enum", "self"}
+Classes == {"zero", "one", "max", "beyond_file", "huge", "plausible", "minus_one", "wrong_enum", "self"}
+(* "memory out of proportion to the input size": the harness's allocator records the largest single allocation REQUEST of a
+   case (KiB) and the largest input handed to a decoder (bytes).  A request of more than 256 MiB plus 1 KiB per input byte
+   (a factor of 1024: beyond what any of the codecs in use expands well-formed data by, inputs here are < 1 MiB) is out of
+   proportion, whether or not the memory was touched and whatever the decoder returned afterwards. *)
+AllocOK(max_alloc_kib, input_len) == max_alloc_kib <= 262144 + input_len
 Fields == [
     versatiles |-> {"magic", "tile_format", "compression", "zoom_min", "zoom_max", "meta_offset", "meta_length", "index_offset", "index_length",
                     "index_brotli_garbage", "block_z", "block_col", "block_row", "block_cov_min", "block_cov_max", "block_offset",
